@@ -104,6 +104,10 @@ int merge_msa(struct msa** dest, struct msa* src)
         }
 
         for(i = 0; i < src->numseq;i++){
+                /* the readers grow the table lazily: dest can be exactly full */
+                if(d->alloc_numseq == d->numseq){
+                        RUN(resize_msa(d));
+                }
                 free_msa_seq(d->sequences[d->numseq]);
                 d->sequences[d->numseq] = src->sequences[i];
                 src->sequences[i] = NULL;
